@@ -423,18 +423,20 @@ fn cancel_faults(ctx: &Ctx, rng: &mut Rng, s: &SizeInfo, faults: &mut Vec<Fault>
     true
 }
 
-/// Add a random multiple of prod_{i=1..j}(x - alpha^i) to one block.
-fn aligned_faults(ctx: &Ctx, rng: &mut Rng, s: &SizeInfo, b: usize, j: usize, faults: &mut Vec<Fault>) -> bool {
+/// Add a random multiple of prod_{i in roots}(x - alpha^i) to one block: the syndromes S_i, i in roots,
+/// stay consistent with "no error", the others (almost surely) do not.
+fn aligned_faults(ctx: &Ctx, rng: &mut Rng, s: &SizeInfo, b: usize, roots: &[usize], faults: &mut Vec<Fault>) -> bool {
     if !ctx.gf_ok[s.idx] {
         return false;
     }
     let gf = &ctx.gf;
     let pos = s.block_positions(b);
     let nb = pos.len();
+    let j = roots.len();
     if j + 1 > nb {
         return false;
     }
-    let g = gf.partial_generator(j);
+    let g = gf.generator_for_roots(roots);
     let max_m = nb - j; // number of coefficients of the multiplier
     let m_len = match rng.below(4) {
         0 => 1,
@@ -454,6 +456,38 @@ fn aligned_faults(ctx: &Ctx, rng: &mut Rng, s: &SizeInfo, b: usize, j: usize, fa
         }
     }
     true
+}
+
+/// Which syndromes (1-based exponents of alpha) an aligned fault keeps at zero.
+fn aligned_roots(rng: &mut Rng, s: &SizeInfo) -> Vec<usize> {
+    let t = s.t();
+    let k = s.k;
+    match rng.below(16) {
+        0 | 1 => (1..=2 * t).collect(),            // on odd k: only the last syndrome can notice
+        2 => (1..=k).collect(),                    // lands on another valid codeword
+        3 => (1..=rng.range(t, k)).collect(),      // first t syndromes vanish
+        4 => (1..=k - 1).collect(),
+        5 | 6 => (1..=rng.range(1, k)).collect(),  // prefix
+        7 | 8 => {
+            // window not starting at 1: S_1 != 0, then a run of zeros (degree-1 locator with zero coefficient)
+            let a = 2;
+            let b = rng.range(t.min(k), k).max(a);
+            (a..=b).collect()
+        }
+        9 => (2..=t + 1).collect(),
+        10 | 11 => {
+            let a = rng.range(1, k);
+            let b = rng.range(a, k);
+            (a..=b).collect()
+        }
+        12 => (2..=k).collect(), // everything but the first
+        13 => {
+            // suffix window: the early syndromes see the damage, the late ones do not
+            let a = rng.range(2, k);
+            (a..=k).collect()
+        }
+        _ => (1..=k).filter(|_| rng.chance(1, 2)).collect(),
+    }
 }
 
 // ---------------- pixel-level fault construction ----------------
@@ -828,16 +862,10 @@ fn beyond_radius_faults(ctx: &Ctx, rng: &mut Rng, s: &SizeInfo, faults: &mut Vec
         9 => burst_faults(rng, s, None, faults),
         10 => data_module_faults(ctx, rng, s, None, faults),
         11..=17 => {
-            // aligned damage: first j syndromes consistent, the rest not
+            // aligned damage: a chosen set of syndromes stays consistent, the rest does not
             let b = rng.below(s.blocks);
-            let j = match rng.below(8) {
-                0 | 1 => 2 * t,            // on odd k: only the last syndrome can notice
-                2 => k,                    // another valid codeword
-                3 => rng.range(t, k),      // first t syndromes vanish
-                4 => k - 1,
-                _ => rng.range(1, k),
-            };
-            aligned_faults(ctx, rng, s, b, j, faults);
+            let roots = aligned_roots(rng, s);
+            aligned_faults(ctx, rng, s, b, &roots, faults);
             // optionally plus random errors (v < t): the pattern only the malfunction test rejects
             if rng.chance(2, 3) {
                 let v = rng.range(0, t);
